@@ -10,6 +10,9 @@ S: independent of the model: the returned cost against the optimum obtained by p
    of the declared finite domain (lexicographic optimum / Pareto front for the multi-objective
    routines), wrong `None`, returned model not satisfying the assertions or not having the
    reported cost, assertion stack / backtrack points changed by the call, any exception.
+   Histories: a query (is_sat / is_valid / is_unsat) immediately before the routine -- its level is
+   still pending when the routine pushes -- and probes after it (public `assertions`, is_sat(True), a
+   second optimize against the enumerated optimum).
    Goal *reuse* (routine "reuse", S only -- the Lean model treats a goal as an immutable value):
    one MaxSMTGoal object is optimised, extended with further soft clauses (weights given as
    Python int / Fraction / float / FNode) and optimised again on the same solver; every result is
@@ -150,6 +153,11 @@ class Prepared(object):
         ev = self.solver.evaluator()
         for g in case["goals"]:
             self._prepare_goal(g, ev)
+        self.probe = None
+        if case.get("probe"):
+            self._prepare_goal(case["probe"], ev)
+            self.probe = (self.goals.pop(), self.tables.pop(), self.dirs.pop(), self.scale.pop(), self.supported.pop())
+            self.doms.pop()
         self.feasible = self.solver.sat_rows(self.asserts)
         self.rep = []
         seen = {}
@@ -416,6 +424,23 @@ def run_case(case):
 
     solver.chooser = make_chooser(prep, case.get("chooser", "first"), case.get("seed", 0))
     before = solver.snapshot()
+    pre = case.get("pre")
+    if pre:
+        # history: is_sat / is_valid / is_unsat IMMEDIATELY followed by the routine (the level the
+        # query pushed is still pending when the routine starts)
+        base_sig["history"] = pre["call"]
+        q = build(pre["query"], prep.syms, prep.mgr)
+        qt = solver.evaluator().table(q)
+        try:
+            got = getattr(solver, pre["call"])(q)
+            exp = {"is_sat": any(qt[r] for r in prep.feasible),
+                   "is_valid": all(qt[r] for r in prep.feasible),
+                   "is_unsat": not any(qt[r] for r in prep.feasible)}[pre["call"]]
+            if bool(got) != exp:
+                report("query", "%s returned %s, enumeration says %s" % (pre["call"], got, exp))
+        except Exception as e:      # noqa
+            report("exception", "%s raised %s" % (pre["call"], type(e).__name__), exc=type(e).__name__,
+                   objective="-", objective_sort="-")
     solver.events = []
     solver.n_solves = 0
     # finite domains: every search needs far fewer calls than there are assignments x goals
@@ -436,6 +461,8 @@ def run_case(case):
     except Exception as e:      # noqa -- every exception is an outcome
         exc = e
     events = list(solver.events)
+    if pre and events and events[0] == ("pop",):
+        events = events[1:]          # the pending level of the query, removed by the routine's first command
     after = solver.snapshot()
     trace, log = prep.python_trace(events)
     nsolve = len(log)
@@ -557,6 +584,40 @@ def run_case(case):
             if set(got) != exp:
                 report("cost", "pareto_optimize yielded %s, the Pareto front is %s" % (sorted(set(got)), sorted(exp)),
                        shape=("missing" if exp - set(got) else "non-optimal"))
+
+    # ------------------------------------------------------------------ probes after the call
+    if prep.probe is not None and (exc is None or py_res == "refused"):
+        pgoal, ptab, pdir, pscale, psup = prep.probe
+        try:
+            sat_now = solver.is_sat(prep.mgr.TRUE())
+            if bool(sat_now) != bool(feasible):
+                report("probe-sat", "is_sat(True) after the call returned %s, the assertions are %ssatisfiable"
+                       % (sat_now, "" if feasible else "un"))
+            if psup:
+                solver.n_solves = 0
+                r2 = solver.optimize(pgoal, strategy="linear")
+                if (r2 is None) != (not feasible):
+                    report("probe-none", "a second optimize after the call returned %s for %ssatisfiable assertions"
+                           % ("None" if r2 is None else "a solution", "" if feasible else "un"))
+                elif r2 is not None:
+                    c2 = r2[1]
+                    if c2.is_bv_constant():
+                        cv2 = c2.bv_signed_value() if (pgoal.signed) else c2.bv_unsigned_value()
+                    else:
+                        cv2 = Fraction(c2.constant_value()) * pscale
+                    opt2 = best(pdir, [ptab[r] for r in feasible]) * pscale
+                    if cv2 != opt2:
+                        report("probe-cost", "a second optimize after the call returned cost %s, the optimum is %s "
+                               "(the first call left the solver in a different state)" % (cv2, opt2))
+            after2 = solver.snapshot()
+            if after2 != before:
+                report("probe-stack", "assertions / levels after the call and a second optimize differ from the "
+                       "initial ones: levels %d -> %d, assertions %d -> %d"
+                       % (len(before[1]), len(after2[1]), len(before[0]), len(after2[0])))
+        except Exception as e:      # noqa
+            if not isinstance(e, KeyError):
+                report("probe-exception", "probe after the call raised %s: %s" % (type(e).__name__, str(e)[:120]),
+                       exc=type(e).__name__)
 
     # ------------------------------------------------------------------ K request
     goal_str = ",".join("%s:%s:%d" % (d, dm, 1 if s else 0)
@@ -826,6 +887,8 @@ CHOOSERS = ["first", "random", "random", "worst", "best"]
 def gen_cases(ctx):
     """Yields (family, case).  The exhaustive BV grid interleaved 3:1 with the sampled families
     (so that every budget sees all families), then sampled cases only."""
+    for item in _gen_focus(ctx):
+        yield item
     grid = _gen_grid(ctx)
     samp = _gen_sampled(ctx)
     k = 0
@@ -844,6 +907,84 @@ def _mk(rng, vars_, asserts, goals, routine, strat, mixin):
     return {"vars": vars_, "asserts": asserts, "goals": goals, "routine": routine,
             "strategy": strat, "mixin": mixin, "chooser": rng.choice(CHOOSERS),
             "seed": rng.getrandbits(30)}
+
+
+PRE_CALLS = ["is_sat", "is_valid", "is_unsat"]
+
+
+def _with_history(rng, case, asserts_pool, goal_pool):
+    """is_sat/is_valid/is_unsat immediately before the routine, probes after it"""
+    q = rng.choice(asserts_pool) if asserts_pool else ["bool", True]
+    if rng.random() < 0.3:
+        q = ["not", q]
+    case["pre"] = {"call": rng.choice(PRE_CALLS), "query": q}
+    case["probe"] = rng.choice(goal_pool)
+    return case
+
+
+def _gen_focus(ctx):
+    """Targeted streams that every budget sees first:
+    (a) lexicographic optimisation over wide domains (several bisection steps per goal), 2-3 goals,
+        min/max mixes, Int and BV, every mix-in x strategy;
+    (b) histories: a satisfiability query immediately followed by every routine, then probes."""
+    rng = ctx.rng
+    quick = ctx.tier == "quick"
+    strategies = ["linear", "binary"]
+    mixins = ["sua", "incr"]
+
+    def mk(*a):
+        return _mk(rng, *a)
+
+    int_vars = [["x", "int", -8, 8], ["y", "int", -6, 9], ["p", "bool"]]
+    int_box = [["and", ["le", ["int", -8], "x"], ["le", "x", ["int", 8]]],
+               ["and", ["le", ["int", -6], "y"], ["le", "y", ["int", 9]]]]
+    int_goals = [g for g in INT_GOALS] + [
+        {"kind": "max", "terms": [["plus", "x", "y"]]},
+        {"kind": "min", "terms": [["minus", ["times", ["int", 3], "y"], "x"]]},
+        {"kind": "max", "terms": [["minus", ["times", ["int", 2], "x"], "y"]]},
+        {"kind": "min", "terms": ["y"]}, {"kind": "max", "terms": ["y"]},
+    ]
+    int_side = [c for c in INT_PALETTE if c != ["ge", ["plus", "x", "y"], ["int", 20]]]
+    reps = 1 if quick else 4
+    for _ in range(reps):
+        for m in mixins:
+            for st in strategies:
+                for ngoals in (2, 2, 3):
+                    for chooser in ("first", "random", "worst", "best"):
+                        # Int, 17 x 16 values
+                        asserts = int_box + rng.sample(int_side, rng.randint(0, 2))
+                        c = mk(int_vars, asserts, rng.sample(int_goals, ngoals), "lexi", st, m)
+                        c["chooser"] = chooser
+                        yield "lexi-wide", c
+                        # BV width 4
+                        w = 4
+                        vars_ = [["a", "bv", w], ["b", "bv", w]]
+                        c = mk(vars_, rng.sample(bv_palette(w)[:-1], rng.randint(0, 2)),
+                               rng.sample(bv_goals(w), ngoals), "lexi", st, m)
+                        c["chooser"] = chooser
+                        yield "lexi-wide", c
+    # histories
+    small_vars = [["x", "int", -3, 3], ["y", "int", -2, 4], ["p", "bool"]]
+    small_box = [["and", ["le", ["int", -3], "x"], ["le", "x", ["int", 3]]],
+                 ["and", ["le", ["int", -2], "y"], ["le", "y", ["int", 4]]]]
+    for _ in range(reps):
+        for routine in ("single", "boxed", "lexi", "pareto"):
+            for m in mixins:
+                for st in strategies:
+                    for call in PRE_CALLS:
+                        if rng.random() < 0.5:
+                            asserts = small_box + rng.sample(int_side, rng.randint(0, 2))
+                            vars_, pool, apool = small_vars, INT_GOALS, int_side
+                        else:
+                            w = rng.choice([2, 3])
+                            vars_ = [["a", "bv", w], ["b", "bv", w]]
+                            apool = bv_palette(w)[:-1]
+                            asserts = rng.sample(apool, rng.randint(0, 2))
+                            pool = bv_goals(w)
+                        gs = [rng.choice(pool)] if routine == "single" else rng.sample(pool, 2)
+                        c = _with_history(rng, mk(vars_, asserts, gs, routine, st, m), apool, pool)
+                        c["pre"]["call"] = call
+                        yield "history", c
 
 
 def _gen_grid(ctx):
@@ -960,6 +1101,9 @@ def _gen_sampled(ctx):
                     gs = [rng.choice(pool)]
         if routine != "single" and rng.random() < 0.01:
             gs = []            # F24c: lexicographic / pareto with no goal at all
+        if fam != "unsupported" and gs and rng.random() < 0.2:
+            yield fam, _with_history(rng, mk(vars_, asserts, gs, routine, strat, mixin), asserts, pool)
+            continue
         if fam == "bool" and rng.random() < 0.35:
             # goal reuse: optimise, add soft clauses to the same goal object, optimise again
             case = mk(vars_, asserts, [], "reuse", strat, mixin)
@@ -1096,8 +1240,9 @@ def _spec_queries(prep, case):
 def run(ctx):
     brute.register(get_env())
     lean_ok = [True]
-    budget = (58 if ctx.tier == "quick" else 780) if not os.environ.get("C18_BUDGET") else int(os.environ["C18_BUDGET"])
-    t_end = ctx.t0 + budget
+    budget = (50 if ctx.tier == "quick" else 780) if not os.environ.get("C18_BUDGET") else int(os.environ["C18_BUDGET"])
+    # the budget counts from the end of the Lean build/audit (a slow build must not eat it)
+    t_end = getattr(ctx, "t_run", ctx.t0) + budget
 
     # --- OptSearchInterval grid (K)
     reqs, exps, descr = interval_grid(ctx)
@@ -1117,14 +1262,19 @@ def run(ctx):
     batch = []
     spec_batch = []
     ctx.extra["exhaustive"] = False
+    n_routine = 0
     for fam, case in gen_cases(ctx):
-        if time.time() > t_end:
+        # the targeted streams always run completely (a few seconds), whatever the load
+        if fam not in ("lexi-wide", "history") and time.time() > t_end:
             break
+        n_routine += 1
         _one(ctx, fam, case, batch, spec_batch)
         if len(batch) >= 4000:
             _flush(ctx, batch, lean_ok)
             batch = []
     _flush(ctx, batch, lean_ok)
+    if n_routine < 500:
+        ctx.infra("only %d optimisation cases were executed within the budget: too few to pass" % n_routine)
     # --- Lean specification vs harness oracles
     if lean_ok[0] and spec_batch:
         try:
